@@ -1,6 +1,6 @@
 ----------------------------- MODULE MC_Guards -----------------------------
 (***************************************************************************)
-(* C04 - guard models.  The four mechanisms that keep lopdf's loader from   *)
+(* C04 - guard models.  The five mechanisms that keep lopdf's loader from   *)
 (* looping or recursing without bound on hostile files, transcribed one     *)
 (* action per loop iteration / call, each with                              *)
 (*   - a VARIANT (step / depth bound) checked as an invariant - there is no *)
@@ -21,15 +21,18 @@
 (*            stream with Length k 0 R (k any object, itself, or missing)}. *)
 (*  "bracket" parser::literal_string / nested_literal_string(depth) with    *)
 (*            MAX_BRACKET (MaxB in the model) on every string over ( ) a.   *)
+(*  "nest"    parser::array / parser::dictionary with the thread-local       *)
+(*            NestingGuard and MAX_NESTING (MaxB in the model; lopdf: 48,    *)
+(*            added by fix: 79ece31) on every object over [ ] x.             *)
 (*  "search"  Reader::search_substring as used by get_xref_start, incl. the *)
 (*            `seek_pos -= index` backtracking and the recursive call for   *)
 (*            the last occurrence, on every buffer over a small alphabet.   *)
 (***************************************************************************)
 EXTENDS Naturals, Integers, Sequences, FiniteSets, TLC
 
-CONSTANTS Model,      \* which mechanism: "prev" | "len" | "bracket" | "search"
+CONSTANTS Model,      \* which mechanism: "prev" | "len" | "bracket" | "nest" | "search"
           N,          \* sections / objects / maximal input length
-          MaxB,       \* the bracket limit of the model (lopdf: MAX_BRACKET = 100)
+          MaxB,       \* the bracket / nesting limit of the model (lopdf: MAX_BRACKET = 100, MAX_NESTING = 48)
           GuardOn     \* FALSE: the guard of the selected mechanism is removed
 
 VARIABLE st           \* one record; its shape depends on Model
@@ -169,6 +172,46 @@ BrRefines == (st.pc = "accept" => BrAccept(st.s)) /\ (st.pc = "reject" => ~BrAcc
 BrDone == st.pc \in {"accept", "reject"}
 
 -----------------------------------------------------------------------------
+(* "nest": parser/mod.rs                                                     *)
+(*   fn array(input) { "[" space;                                            *)
+(*       let Some(_level) = NestingGuard::enter() else { return Failure };   *)
+(*       many0(_direct_object) "]" }          (dictionary: the same with <<)  *)
+(*   NestingGuard::enter: if NESTING >= MAX_NESTING {None} else {NESTING += 1}*)
+(*   Drop: NESTING -= 1.    One direct object is parsed from the start.      *)
+(* symbols: 1 = "[" (or "<<"), 2 = "]" (or ">>"), 3 = any scalar object.      *)
+(* depth = the thread-local counter = the number of parser frames in use.    *)
+
+NsInit ==
+    \E s \in BrStrings :
+        st = [pc |-> "start", s |-> s, pos |-> 1, depth |-> 0, maxd |-> 0, steps |-> 0]
+
+NsStep ==
+    LET s == st.s
+        eof == st.pos > Len(s)
+        enter == IF GuardOn /\ st.depth >= MaxB
+                 THEN [st EXCEPT !.pc = "reject"]                                    \* nom Failure: the whole parse stops
+                 ELSE [st EXCEPT !.pc = "inner", !.pos = @ + 1, !.depth = @ + 1, !.steps = @ + 1,
+                                 !.maxd = IF st.depth + 1 > @ THEN st.depth + 1 ELSE @]
+    IN
+    \/ /\ st.pc = "start"
+       /\ st' = IF s[1] = 3 THEN [st EXCEPT !.pc = "accept", !.pos = 2, !.steps = 1]
+                ELSE IF s[1] = 2 THEN [st EXCEPT !.pc = "reject"]
+                ELSE enter
+    \/ /\ st.pc = "inner"
+       /\ st' = IF eof THEN [st EXCEPT !.pc = "reject"]                               \* the closing bracket is missing
+                ELSE IF s[st.pos] = 3 THEN [st EXCEPT !.pos = @ + 1, !.steps = @ + 1]
+                ELSE IF s[st.pos] = 1 THEN enter
+                ELSE [st EXCEPT !.pos = @ + 1, !.steps = @ + 1, !.depth = @ - 1,     \* "]": the guard is dropped
+                                !.pc = IF st.depth = 1 THEN "accept" ELSE "inner"]
+
+\* declarative: the first object is a scalar, or a bracket that is closed and never nested deeper than MaxB
+NsAccept(s) == s[1] = 3 \/ (s[1] = 1 /\ BrProfile(s).closed /\ BrProfile(s).mx <= MaxB)
+\* the variant is the point of the guard: the recursion depth is bounded by the constant, not by the input
+NsVariant == st.depth <= MaxB /\ st.maxd <= MaxB /\ st.steps <= Len(st.s)
+NsRefines == (st.pc = "accept" => NsAccept(st.s) /\ st.depth = 0) /\ (st.pc = "reject" => ~NsAccept(st.s))
+NsDone == st.pc \in {"accept", "reject"}
+
+-----------------------------------------------------------------------------
 (* "search": reader.rs                                                       *)
 (*   fn search_substring(buffer, pattern, start_pos) -> Option<usize> {      *)
 (*     let mut seek_pos = start_pos; let mut index = 0;                      *)
@@ -218,24 +261,25 @@ SsDone == st.pc = "done"
 
 -----------------------------------------------------------------------------
 Init == IF Model = "prev" THEN PrevInit ELSE IF Model = "len" THEN LenInit
-        ELSE IF Model = "bracket" THEN BrInit ELSE SsInit
+        ELSE IF Model = "bracket" THEN BrInit ELSE IF Model = "nest" THEN NsInit ELSE SsInit
 
 StepPrevFirst == Model = "prev" /\ PrevFirst
 StepPrevIter  == Model = "prev" /\ PrevIter
 StepLen       == Model = "len" /\ LenStep
 StepBracket   == Model = "bracket" /\ BrStep
+StepNest      == Model = "nest" /\ NsStep
 StepSearch    == Model = "search" /\ SsStep
 
-Next == StepPrevFirst \/ StepPrevIter \/ StepLen \/ StepBracket \/ StepSearch
+Next == StepPrevFirst \/ StepPrevIter \/ StepLen \/ StepBracket \/ StepNest \/ StepSearch
 
 Spec == Init /\ [][Next]_st /\ WF_st(Next)
 
 Variant == IF Model = "prev" THEN PrevVariant ELSE IF Model = "len" THEN LenVariant
-           ELSE IF Model = "bracket" THEN BrVariant ELSE SsVariant
+           ELSE IF Model = "bracket" THEN BrVariant ELSE IF Model = "nest" THEN NsVariant ELSE SsVariant
 Refines == IF Model = "prev" THEN PrevRefines ELSE IF Model = "len" THEN LenRefines
-           ELSE IF Model = "bracket" THEN BrRefines ELSE SsRefines
+           ELSE IF Model = "bracket" THEN BrRefines ELSE IF Model = "nest" THEN NsRefines ELSE SsRefines
 Done == IF Model = "prev" THEN PrevDone ELSE IF Model = "len" THEN LenDone
-        ELSE IF Model = "bracket" THEN BrDone ELSE SsDone
+        ELSE IF Model = "bracket" THEN BrDone ELSE IF Model = "nest" THEN NsDone ELSE SsDone
 
 Terminates == <>Done
 =============================================================================
